@@ -9,6 +9,8 @@ func init() {
 		"only delay-seconds Retry-After values count as a server hint",
 		"HTTP answers: 200 is the only success generated; every other status outside 429/502/503/504 (3xx that a Go client does not follow, all 4xx, all other 5xx up to 599) is non-retryable; gRPC codes 17 and 99 are non-retryable",
 		"an export made after Shutdown is only required not to block (the six exporters document different results); Shutdown before Start on the trace exporters is a no-op after which the exporter behaves like a fresh one",
+		"a partial-success message with a rejected count > 0 is a rejection that has to be reported whether or not an error_message explains it; a message with neither count nor text requires no report",
+		"once the export context has ended Export must be back within 10 s (hard) / 2 s (three quiet runs); an export abandoned as blocked leaves its goroutine behind, the run continues",
 		"the open Retry-After unit finding explains only a wait that is shorter than N seconds but not shorter than N nanoseconds; a shorter wait, or a re-send where even the nanosecond reading exceeds MaxElapsedTime, is a violation",
 	))
 }
